@@ -357,6 +357,7 @@ func judge(id, tier, repo, verif string, cfg Config, p *Prog, loadErr error, t0 
 			"rule":           "calls to functions absent from the frozen function table (code split off from a known function) are expanded in place at the source level before the rules run (overlay, nothing written to the repository); see checker/inline.go",
 			"expanded_sites": p.Inlined,
 			"failed":         p.InlineFailed,
+			"not_expanded":   p.InlineRejected,
 		}
 		if len(p.Inlined) > 0 || p.InlineFailed != "" {
 			fmt.Printf("-- normalisation: %d call site(s) of novel helpers expanded before the analysis %s\n", len(p.Inlined), p.InlineFailed)
